@@ -239,26 +239,47 @@ public:
       }
       inline static void sort(Item* left, Item* right)
       {
-        Item* ptr0, * ptr1, * ptr2;
-        ptr0 = ptr1 = ptr2 = left;
-        const T& pivot = left->value;
-        do
+        for(;;)
         {
-          ptr2 = ptr2->next;
-          if(ptr2->value < pivot)
+          Item* ptr0, * ptr1, * ptr2;
+          ptr0 = ptr1 = ptr2 = left;
+          usize less = 0, other = 0;
+          const T& pivot = left->value;
+          do
           {
-            ptr0 = ptr1;
+            ptr2 = ptr2->next;
+            if(ptr2->value < pivot)
+            {
+              ptr0 = ptr1;
+              ptr1 = ptr1->next;
+              swap(ptr1, ptr2);
+              ++less;
+            }
+            else
+              ++other;
+          } while(ptr2 != right);
+          swap(left, ptr1);
+          if(ptr1 != right)
             ptr1 = ptr1->next;
-            swap(ptr1, ptr2);
+          // recurse into the shorter side and continue with the longer one, so that the
+          // recursion is at most log2(size) deep (sorted input used to nest size - 1 calls)
+          if(less < other)
+          {
+            if(left != ptr0)
+              sort(left, ptr0);
+            if(ptr1 == right)
+              return;
+            left = ptr1;
           }
-        } while(ptr2 != right);
-        swap(left, ptr1);
-        if(ptr1 != right)
-          ptr1 = ptr1->next;
-        if(left != ptr0)
-          sort(left, ptr0);
-        if(ptr1 != right)
-          sort(ptr1, right);
+          else
+          {
+            if(ptr1 != right)
+              sort(ptr1, right);
+            if(left == ptr0)
+              return;
+            right = ptr0;
+          }
+        }
       }
     };
     QuickSort::sort(_begin.item, endItem.prev);
